@@ -66,6 +66,13 @@ XMenu == <<
   RawP(<<"a", "<", "b">>, "(< a b)"),
   RawP(<<"\"c\"", "|", "getline", "tgt", ">", "0">>, "(> (pget \"c\" tgt) 0)"),
   RawP(<<"getline", "tgt", "<", "\"f\"", "\"g\"">>, "(cat (fget tgt \"f\") \"g\")"),
+  \* a > deeper inside an argument: in the middle / at the start / at the end of && and || chains, under ?: and =
+  RawP(<<"p", "&&", "a", ">", "b", "&&", "c">>, "(&& (&& p (> a b)) c)"),
+  RawP(<<"a", ">", "b", "||", "c">>, "(|| (> a b) c)"),
+  RawP(<<"p", "||", "a", ">", "b">>, "(|| p (> a b))"),
+  RawP(<<"a", "?", "b", ">", "c", ":", "d">>, "(?: a (> b c) d)"),
+  RawP(<<"x", "=", "a", ">", "b">>, "(= x (> a b))"),
+  RawP(<<"p", "||", "q", "&&", "a", ">", "b", "&&", "c">>, "(|| p (&& (&& q (> a b)) c))"),
   Raw(<<"A", "[", "a", ",", "b", "]">>, "([] A a b)"),
   T([k |-> "asg", op |-> "-=", l |-> Atom("a"), r |-> Atom("b")]),
   T([k |-> "asg", op |-> "*=", l |-> Atom("a"), r |-> Atom("b")]),
